@@ -464,6 +464,8 @@ def gen_rates(rnd, dyn='sto'):
     nodes, edges = rand_net(rnd, 3, 8)
     nh = 3
     handlers = [['N', [['CCL', c]]] for c in range(ncomp)]
+    if rnd.random() < 0.4:
+        handlers[rnd.randrange(3)] = ['N', [['CLOCK']]]        # an event that leaves its element where it is
     P = [0.0, 0.0009765625, 0.125, 0.25, 0.5, 1.0]
     nodeloci = [0, 1, 2]
     perel = []
